@@ -25,7 +25,7 @@ impl Check for C14 {
         proptest::strategy::Union::new(vec![scan_case_strategy(ll, 6), scan_case_strategy(lr, 6)]).boxed()
     }
     fn cases(&self, tier: Tier) -> u32 {
-        tier.pick(3000, 80000)
+        tier.pick(50000, 800000)
     }
     fn run(&self, c: &ScanCase, st: &mut Stats) -> Verdict {
         let (l, text) = match load_case(c) {
